@@ -3,6 +3,7 @@ import Driver.SchemaJson
 import Driver.SValJson
 import Driver.ArrJson
 import SaModel.Build.Finish
+import SaModel.Build.Dec
 import SaModel.Spec.Interp
 import SaModel.Spec.WF
 /-
@@ -173,6 +174,11 @@ def handle (j : Json) : Except String Verdict := do
         | .error _, .error _ => true
         | _, _ => false
     let phys := iarrs == marrs
+    -- the abstraction function of the refinement proofs, evaluated on the model's final state:
+    -- `decodeAll (finish b) = (dec b).map ok` (runtime instance of the theorem, before/while it is proved)
+    let decOk := match runRows ext fields rows with
+      | .ok root => (decRoot root).map (fun c => c.map (fun v => (Except.ok v : R LVal))) == mdecoded
+      | .error _ => false
     let c03 := if anyMalformed then "na" else if wfAll then "pass" else "fail"
     let badCol := firstNotWf.getD 0
     let cul := match fields[badCol]?, iarrs[badCol]? with
@@ -182,9 +188,10 @@ def handle (j : Json) : Except String Verdict := do
       if c03 == "fail" then s!"build/C03/{cul}"
       else if c01 == "fail" then s!"build/C01/{cul}"
       else if c05 == "fail" then s!"build/C05/accepted-unrepresentable"
-      else if !same then "build/decoded-differs" else ""
-    return { agree := same, spec := [("C16", c16), ("C05", c05), ("C01", c01), ("C03", c03), ("C18", "na")],
-             tags := (if phys then "phys-eq" else "phys-diff") :: tags, sig := sig,
+      else if !same then "build/decoded-differs"
+      else if !decOk && !anyMalformed && !fields.any hasFsb0 then "build/dec-vs-decode" else ""
+    return { agree := same && (decOk || anyMalformed || fields.any hasFsb0), spec := [("C16", c16), ("C05", c05), ("C01", c01), ("C03", c03), ("C18", "na")],
+             tags := (if phys then "phys-eq" else "phys-diff") :: (if decOk then "dec=decode" else "dec≠decode") :: tags, sig := sig,
              why := if sig == "" then "" else s!"{sig}: first row not representable = {repr firstBad}; column not wf = {repr firstNotWf}" }
 
 end Driver.Suites.Build
